@@ -16,6 +16,10 @@ func Again() {
 	avronull.RegisterCodecs()
 }
 
+// Time and Null call one of the library's two RegisterCodecs functions on its own.
+func Time() { avrotime.RegisterCodecs() }
+func Null() { avronull.RegisterCodecs() }
+
 func Init() {
 	once.Do(func() {
 		avrotime.RegisterCodecs()
